@@ -366,7 +366,7 @@ func c13Refcount(p *chk.Prog, r *chk.Report) {
 		for _, c := range g.FindPat("RECV.conn.JoinGroup(G)") {
 			x.Check("ndp.Watch:join-on-first", c.Pos(), g.Dominated(c, g.GPat(true, "RECV.solicitedNodeGroups[K] == 0")), "", "the multicast group is joined although it is already watched")
 		}
-		incs := g.Find(func(n ast.Node) bool { s, ok := n.(*ast.IncDecStmt); return ok && s.Tok == token.INC })
+		incs := c13CounterSteps(w, g, token.INC)
 		okk := len(incs) == 1
 		if okk {
 			// every nil return for an IPv6 address passes the increment
@@ -382,8 +382,19 @@ func c13Refcount(p *chk.Prog, r *chk.Report) {
 	if u != nil {
 		g := u.Graph()
 		for _, c := range g.FindPat("RECV.conn.LeaveGroup(G)") {
-			x.Check("ndp.Unwatch:leave-on-last", c.Pos(), g.Dominated(c, g.GPat(true, "RECV.solicitedNodeGroups[K] == 0")), "", "the multicast group is left while it is still watched")
-			decs := g.Find(func(n ast.Node) bool { s, ok := n.(*ast.IncDecStmt); return ok && s.Tok == token.DEC })
+			decs := c13CounterSteps(u, g, token.DEC)
+			// the count after the decrement is zero: read back from the table, or the decremented value held in the local
+			// that was stored
+			zero := g.GPat(true, "RECV.solicitedNodeGroups[K] == 0")
+			if len(decs) == 1 {
+				if as, isAs := decs[0].Node.(*ast.AssignStmt); isAs && len(as.Rhs) == 1 {
+					if vid, isId := ast.Unparen(as.Rhs[0]).(*ast.Ident); isId && len(assignsTo(u, u.ObjOf(vid))) == 1 {
+						stored := u.IsObj(u.ObjOf(vid))
+						zero = chk.GOr(zero, g.GPat(true, "V == 0", chk.H("V", stored)), g.GPat(true, "0 == V", chk.H("V", stored)))
+					}
+				}
+			}
+			x.Check("ndp.Unwatch:leave-on-last", c.Pos(), g.Dominated(c, zero), "", "the multicast group is left while it is still watched")
 			okk := len(decs) == 1 && !g.MustPass(chk.Site{}, func(n ast.Node) bool { return n == c.Top || chk.Encloses(n, c.Node) }, false, func(n ast.Node) bool { return n == decs[0].Top }).Found
 			x.Check("ndp.Unwatch:decrement-before-test", c.Pos(), okk, "", "the group count is not decremented before the leave test")
 		}
@@ -427,4 +438,45 @@ func c13CoversInterface(g *chk.Graph, adv, intf func(ast.Expr) bool) chk.Guard {
 		g.GPat(true, "I.matchInterface(IF)", chk.H("I", adv), chk.H("IF", intf)),
 		g.GPat(true, "I.allInterfaces", chk.H("I", adv)),
 		g.GPat(true, "I.interfaces.Has(IF)", chk.H("I", adv), chk.H("IF", intf)))
+}
+
+// c13CounterSteps: the statements that move a solicited-node group count by one in the given direction: M[K]++ / M[K]--,
+// M[K] += 1 / -= 1, or M[K] = E where E - locals assigned once replaced by their values - is M[K] + 1 / M[K] - 1 for the
+// same key (the count read into a local first and written back).
+func c13CounterSteps(f *chk.Fn, g *chk.Graph, dir token.Token) []chk.Site {
+	isTable := func(e ast.Expr) bool { return f.MatchNew("RECV.solicitedNodeGroups", e) != nil }
+	op, opAssign := "+", token.ADD_ASSIGN
+	if dir == token.DEC {
+		op, opAssign = "-", token.SUB_ASSIGN
+	}
+	return g.Find(func(n ast.Node) bool {
+		switch s := n.(type) {
+		case *ast.IncDecStmt:
+			ix, ok := ast.Unparen(s.X).(*ast.IndexExpr)
+			return ok && s.Tok == dir && isTable(ix.X)
+		case *ast.AssignStmt:
+			if len(s.Lhs) != 1 || len(s.Rhs) != 1 {
+				return false
+			}
+			ix, ok := ast.Unparen(s.Lhs[0]).(*ast.IndexExpr)
+			if !ok || !isTable(ix.X) {
+				return false
+			}
+			if s.Tok == opAssign {
+				return f.IsConstInt(s.Rhs[0], 1)
+			}
+			if s.Tok != token.ASSIGN {
+				return false
+			}
+			sameKey := func(e ast.Expr) bool { return f.SameExpr(e, ix.Index) || f.SameExpr(f.Expand(e), f.Expand(ix.Index)) }
+			e := f.Expand(s.Rhs[0])
+			if b := f.MatchWith("M[K] "+op+" 1", e, chk.H("M", isTable), chk.H("K", sameKey)); b != nil {
+				return true
+			}
+			if dir == token.INC {
+				return f.MatchWith("1 + M[K]", e, chk.H("M", isTable), chk.H("K", sameKey)) != nil
+			}
+		}
+		return false
+	})
 }
